@@ -270,7 +270,9 @@ def check_hierarchy(case):
 @st.composite
 def _hier_case(draw):
     c = draw(_case(forms=("ketcol", "dm"), nmax=3))
-    c["level2"] = draw(st.integers(0, 3)) == 0 and c["d"] == 4
+    # level 2 also on 2x3 / 3x2 (an 18-dimensional program): seeded change C12-w3 - a wrong cut in the PPT constraints of
+    # the extension - is invisible for equal local dimensions and at level 1
+    c["level2"] = draw(st.integers(0, 3)) == 0
     if c["cplx"] and c["family"] == "generic" and draw(st.booleans()):
         c["real_first"] = True  # kets of mixed dtype (seeded change C12-t1: the ket -> density-matrix buffer took kets[0].dtype)
     return c
